@@ -166,6 +166,11 @@ def gen_program(seed, k, tier):
             mn = int(rng.integers(1, 3))
             kw = dict(iterate=True, min_iterations=mn,
                       max_iterations=mn + int(rng.integers(0, 2)))
+        if rng.random() < 0.2:
+            # only some of the destination particles (an empty range too)
+            kw['stop_idx'] = int(rng.choice([0, 3, 7]))
+            if rng.random() < 0.5:
+                kw['start_idx'] = int(rng.choice([0, 2]))
         groups.append(Group(equations=eqs, **kw))
     kn = [n for n in evalkit.kernels() if ('1D' in n) == (dim == 1) or
           n in ('CubicSpline', 'Gaussian', 'QuinticSpline', 'SuperGaussian')]
